@@ -541,11 +541,12 @@ def eval_cell(case):
     return out, info
 
 
-# finding D32: an implementation whose designated cell is one of its ports (Verilog-style feed-through input cell -> fork -> output
-# cell as first output). substitute() gives the instance the kind of the port cell and copies the line port cell -> fork, whose
-# reader pin is then taken by the instance's own input line: the circuit is no longer well-formed (Lean witness
-# C10.substitute_designated_port_not_wf), and a following copy() / pickle round trip connects the fork to the stale line.
-# The case is replayed every run from corpus/C10-designated-port.json.
+# D32 (fixed): an implementation whose walk for the designated cell ends at one of its ports (Verilog-style feed-through input cell ->
+# fork -> output cell as first output). Before the repair substitute() gave the instance the kind of the port cell and copied the line
+# port cell -> fork, whose reader pin was then taken by the instance's own input line: the circuit was no longer well-formed (Lean
+# witness C10.substitute_designated_port_not_wf about the earlier rule), and a following copy() / pickle round trip connected the fork
+# to the stale line. Since the repair such an implementation has no designated cell (C10.substitute_feedthrough_repaired).
+# The case is replayed every run from corpus/C10-designated-port.json: a violation if the behaviour returns.
 FEEDTHROUGH = {'kind': 'subst-copy', 'cell': 'u',
                'host': {'nodes': [['i', 'input'], ['u', 'CELL'], ['o', 'output']], 'lines': [[0, 0, 1, 0], [1, 0, 2, 0]], 'io': [0, 2]},
                'impl': {'nodes': [['A', 'input'], ['a', '__fork__'], ['X', 'output']], 'lines': [[0, 0, 1, 0], [1, 0, 2, 0]], 'io': [0, 2]}}
@@ -932,14 +933,24 @@ def is_regular(c, u, impl):
     """the case of theorems substitute_regular / substitute_wiring (model predicate regularB)"""
     ins = [q for q in impl.io_nodes if len(q.ins) == 0]
     outs = [q for q in impl.io_nodes if len(q.ins) > 0]
-    if not outs and not any(q.kind != '__fork__' and is_state(q.kind) for q in impl.nodes): return False
+    if not any(q.kind != '__fork__' and is_state(q.kind) for q in impl.nodes):
+        if not outs: return False
+        # the designated cell: walk from the first output through forks that are no ports; a port is no designated cell (repair of D32)
+        try:
+            q, ios = outs[0].ins[0].driver, set(impl.io_nodes)
+            for _ in range(len(impl.nodes) + 1):
+                if not (q.kind == '__fork__' and q not in ios): break
+                q = q.ins[0].driver
+            if q in ios: return False
+        except Exception:
+            pass                            # the real call raises: not compared
     if len(u.ins) > len(ins) or len(u.outs) != len(outs) or any(l is None for l in u.outs): return False
     return all(l is None or len(q.outs) > 0 for q, l in zip(ins, list(u.ins)))
 
 
 def corr_subst(ck, n):
     rng = ck.rng
-    raised = changed = covered = covered_rm = 0
+    raised = changed = covered = covered_rm = covered_gap = 0
     for it in range(n):
         impl, itags = lib_impl(rng) if rng.random() < 0.3 else rand_impl(rng)
         c, htags = rand_host(rng, impl)
@@ -992,6 +1003,8 @@ def corr_subst(ck, n):
                         ck.broken_tie('substitute_sem_removing: wfNoTrail of the result', f'wfNoTrail(model result) = {hyp[9]}', inp={'request': req})
                 if not failed:
                     covered += 1
+                    if len(hyp) > 10 and hyp[10] == '0':      # a copied fork had a gap (D30 shape): the theorems hold WITH densify
+                        covered_gap += 1; semtag = 'sem-hyp:covered-gap'
                     rwf = common.run_driver([f'xform wf {names_arg(c)} {circ.dump_net(c)}'])[0]
                     if rwf != '1' or hyp[7] != '1':
                         ck.broken_tie('substitute_wf on the real result', f'hypotheses of substitute_sem hold but wf(real result) = {rwf}, '
@@ -1005,6 +1018,7 @@ def corr_subst(ck, n):
     ck.extra['corr_subst_with_removed_nodes'] = changed
     ck.extra['corr_subst_in_hypotheses_of_substitute_sem'] = covered
     ck.extra['corr_subst_in_hypotheses_of_substitute_sem_removing'] = covered_rm
+    ck.extra['corr_subst_in_hypotheses_of_substitute_sem_with_fork_gap'] = covered_gap
 
 
 def corr_resolve(ck, n):
